@@ -331,7 +331,7 @@ mi_segment_t* stub_ptr_segment_f(const void* p) { return &FSEG; }
 void _mi_stat_increase(mi_stat_count_t* stat, size_t amount) { }
 void _mi_stat_counter_increase(mi_stat_counter_t* stat, size_t amount) { }
 void stub_extend_free2(mi_heap_t* heap, mi_page_t* page, mi_tld_t* tld) { n_extend2++; CHECK(page->capacity < page->reserved, "room to extend"); page->capacity = 1; page->free = (mi_block_t*)FAREA; }
-#if FRESH_KIND == 2
+#if FRESH_KIND != 0
 size_t _mi_os_good_alloc_size(size_t size) { return ((size + 65535) / 65536) * 65536; }       /* concrete rounding (C11.good_alloc_size decides the real one) */
 #else
 size_t _mi_os_good_alloc_size(size_t size) { size_t r = nd_size(); ASSUME(r >= size && r - size < ((size_t)4 << 20)); return r; }
@@ -344,9 +344,8 @@ void h_fresh_alloc(void) {
   size = QBS; pg = mi_page_fresh(&A, &A.pages[BIN]);
 #else                          /* large / huge / over-aligned */
   ASSUME(size > MI_MEDIUM_OBJ_SIZE_MAX && size <= ((size_t)1 << FRESH_BITS));        /* bounded: mi_page_init divides the (symbolic) area size by the (symbolic) block size */
-#if FRESH_KIND == 1            /* huge or over-aligned: the huge queue */
-  if (nd_bool()) { align = (size_t)1 << nd_range(25, FRESH_BITS); }
-  else ASSUME(size > MI_LARGE_OBJ_SIZE_MAX);
+#if FRESH_KIND == 1            /* huge or over-aligned: the huge queue; request size and alignment concrete (driver enumerates) so that the division in mi_page_init is by a constant, area size symbolic */
+  size = LSIZE; align = HALIGN;
 #else                          /* large: concrete size (its queue index stays concrete), driver enumerates */
   size = LSIZE;
 #endif
@@ -488,6 +487,7 @@ void h_find_free(void) {
    (_mi_heap_collect_abandon: C09.collect_abandon); never both, never neither; then the heap is unlinked and its descriptor freed;
    the backing heap itself is never freed. */
 static int n_absorb, n_abandon, n_desc_free, step_ctr, moved_at, freed_at;
+mi_arena_id_t _mi_arena_id_none(void) { return 0; }      /* as in arena.c */
 void stub_heap_absorb(mi_heap_t* to, mi_heap_t* from) { CHECK(to == &B && from == &A, "pages go from the deleted heap to the backing heap"); n_absorb++; moved_at = ++step_ctr; from->page_count = 0; }
 void stub_collect_abandon(mi_heap_t* h) { n_abandon++; moved_at = ++step_ctr; h->page_count = 0; }
 void mi_free(void* p) mi_attr_noexcept { n_desc_free++; freed_at = ++step_ctr; CHECK(p == (void*)&A, "only the deleted heap's descriptor is freed"); }
